@@ -11,6 +11,7 @@ from ..core.devdb import DevDB
 from ..core.loader import AnalysisError
 from ..core.report import norm
 from ..core.symtab import UNKNOWN, ClassInfo, FuncInfo, struct_items
+from ..engines import ordereval
 from ..engines import bitprov, wire
 from ..engines.ordereval import Evaluator, Unsupported
 
@@ -556,11 +557,70 @@ def rule_srk(ctx) -> None:
     chk.decide("int_data = self.export_fuses()[index * 4:(1 + index) * 4]" in norm(gfu.node) and "unpack('<I', int_data)[0]" in norm(gfu.node), "C07.srk", gfu.qual, "fuse word i = little-endian bytes 4i..4i+3 of the table hash", "", "", A.loc(SEC, gfu.node))
 
 
+def rule_xmcd_window(ctx) -> None:
+    """C07.xmcd-window: the XMCD segment of a HAB container parses back to the XMCD that was put in: XmcdHabSegment.parse, interpreted on
+    a model container (zeros up to the XMCD offset, an exported SegXMCD, then foreign bytes), returns exactly the configured payload -
+    not a byte more (the header's block size counts the header itself)."""
+    from ..engines import roundtrip
+    ex = {"SegXMCD": ctx.cls(SEG, "SegXMCD"), "XMCDHeader": ctx.cls(SEG, "XMCDHeader"), "Header": ctx.cls(HDR, "Header")}
+    rt = roundtrip.RoundTrip(ctx, HS, "XmcdHabSegment", None, None, ex)
+    probs = []
+    for n_ in (4, 9, 256):
+        cfg = bytes((3 * i + 1) & 0xFF for i in range(n_))
+        seg = rt.ev("SegXMCD(header=XMCDHeader(interface=1, instance=0, block_type=0, block_size=4 + n), config_data=cfg)", {"cfg": cfg, "n": n_})
+        raw = rt.ev("seg.export()", {"seg": seg})
+        off = rt.ev("XmcdHabSegment.OFFSET", {})
+        if not isinstance(raw, (bytes, bytearray)) or not isinstance(off, int):
+            raise AnalysisError("C07.xmcd-window: SegXMCD.export / XmcdHabSegment.OFFSET did not evaluate")
+        try:
+            parsed = rt.ev("XmcdHabSegment.parse(data)", {"data": bytes(off) + bytes(raw) + b"\xEE" * 16})
+            got = roundtrip.fields_of(parsed)
+            got_cfg = got.get("segment", {}).get("config_data") if isinstance(got, dict) else None
+            got_size = got.get("segment", {}).get("header", {}).get("block_size") if isinstance(got, dict) else None
+        except ordereval.ModelRaise as mr:
+            got_cfg, got_size = f"raise {mr}", None
+        if got_cfg != cfg or got_size != 4 + n_:
+            probs.append(f"{n_}-byte XMCD payload: parsed payload of {len(got_cfg) if isinstance(got_cfg, bytes) else got_cfg} bytes, header block size {got_size}")
+    ctx.chk.exhaustive_rules.add("C07.xmcd-window")
+    ctx.chk.decide(not probs, "C07.xmcd-window", f"{HS}::XmcdHabSegment.parse", "the parsed XMCD segment is the exported one (3 payload sizes, foreign bytes behind it)", "; ".join(probs[:2]), "payload = block size - header size",
+                   A.loc(HS, rt.cls.node))
+
+
+def rule_cms_by_length(ctx) -> None:
+    """C07.cms-by-length: a signature provider does not expose its key type, so cms.py tells RSA from ECDSA by the signature length.
+    Every such comparison must put all raw ECDSA lengths SPSDK supports (2 x coordinate size of P-256/384/521 = 64, 96, 132) on one
+    side and all RSA lengths (2048/3072/4096 bit = 256, 384, 512) on the other - otherwise a P-521 signature is labelled and encoded
+    as RSA (or a short RSA one as ECDSA) and the CMS does not verify under the installed key."""
+    CMS = "spsdk/crypto/cms.py"
+    m = ctx.m(CMS)
+    ecc, rsa = (64, 96, 132), (256, 384, 512)
+    n = 0
+    for q, f in sorted(ctx.prog.functions.items()):
+        if f.module is not m:
+            continue
+        for c in ast.walk(f.node):
+            if not (isinstance(c, ast.Compare) and len(c.ops) == 1 and norm(c.left).endswith(".signature_length")):
+                continue
+            t = ctx.prog.fold(c.comparators[0], m, f.cls)
+            if not isinstance(t, int) or isinstance(t, bool):
+                raise AnalysisError(f"C07.cms-by-length: threshold of `{norm(c)}` in {q} does not fold")
+            ctx.chk.analysed(q)
+            try:
+                on = {L: bool(ordereval.Evaluator({"L": L, "T": t}).ev(ast.Compare(left=ast.Name(id="L", ctx=ast.Load()), ops=c.ops, comparators=[ast.Name(id="T", ctx=ast.Load())]))) for L in ecc + rsa}
+            except ordereval.Unsupported as ex:
+                raise AnalysisError(f"C07.cms-by-length: `{norm(c)}` left the fragment: {ex}")
+            ok = len({on[L] for L in ecc}) == 1 and len({on[L] for L in rsa}) == 1 and on[ecc[0]] != on[rsa[0]]
+            n += 1
+            ctx.chk.decide(ok, "C07.cms-by-length", f"{q} `{norm(c)[:60]}`", f"threshold {t} separates raw ECDSA lengths {ecc} from RSA lengths {rsa}",
+                           f"`{norm(c)}` (threshold {t}) is {on}: the lengths are not separated by key type", "a threshold in 133..256", A.loc(CMS, c))
+    ctx.chk.floor("C07.cms-by-length", 2)
+
+
 def rule_roundtrip(ctx) -> None:
     """C07.cmd-roundtrip / C07.secret-roundtrip: the HAB command and secret classes interpreted on model objects (E19): what export()
     writes, parse() reads back into an object with the same fields that exports to the same bytes - constructor, export and parse of the
     class (and of its bases, headers and enums) are evaluated from the source."""
-    from ..engines import ordereval, roundtrip
+    from ..engines import roundtrip
     hx = {"Header": ctx.cls(HDR, "Header"), "CmdHeader": ctx.cls(HDR, "CmdHeader")}
     E = lambda rel, n: ctx.enum_model(ctx.cls(rel, n))  # noqa: E731
     eng, alg = E(CMD, "EnumEngine"), E(SEC, "EnumAlgorithm")
@@ -610,6 +670,8 @@ def run(ctx) -> None:
     ctx.rule(rule_registry)
     ctx.rule(rule_srk)
     ctx.rule(rule_roundtrip)
+    ctx.rule(rule_cms_by_length)
+    ctx.rule(rule_xmcd_window)
     ctx.chk.assumptions = ["CMS / X.509 / AES-CCM primitives are correct (C08, C09)", "struct semantics",
                            "not decided: an independent CMS verification of a built image, decryption of a built image, pointer arithmetic for every size beyond the sibling-formula agreement, "
                            "application offset detection heuristics of AppHabSegment.parse"]
